@@ -9,7 +9,7 @@ package ro
 // `n` is always the number of values received from the source so far.
 
 //@ operator Take
-//@   props C04 C14 C20
+//@   props C04 C14 C20 C08
 //@   otherwise count == 0 : returns Empty()
 //@   requires count >= 1
 //@   ghost n int = 0
@@ -18,20 +18,20 @@ package ro
 //@   on next(ctx, value) when n + 1 >= count : emits Next(ctx, value), Complete(ctx)
 
 //@ operator Skip
-//@   props C04
+//@   props C04 C08
 //@   ghost n int = 0
 //@   inv index == n
 //@   on next(ctx, value) when n >= count : emits Next(ctx, value) ; n' = n + 1
 //@   on next(ctx, value) when n < count : emits ; n' = n + 1
 
 //@ operator MapIWithContext
-//@   props C04 C09
+//@   props C04 C09 C08
 //@   ghost n int = 0
 //@   inv i == n
 //@   on next(ctx, value) : emits Next(project_0(ctx, value, n), project_1(ctx, value, n)) ; n' = n + 1
 
 //@ operator FilterIWithContext
-//@   props C04 C09
+//@   props C04 C09 C08
 //@   ghost n int = 0
 //@   inv i == n
 //@   on next(ctx, value) when predicate_1(ctx, value, n) : emits Next(predicate_0(ctx, value, n), value) ; n' = n + 1
@@ -42,11 +42,11 @@ package ro
 // ---------------------------------------------------------------------------
 
 //@ operator IgnoreElements
-//@   props C04
+//@   props C04 C08
 //@   on next(ctx, value) : emits
 
 //@ operator SkipWhileIWithContext
-//@   props C04 C09
+//@   props C04 C09 C08
 //@   ghost n int = 0
 //@   inv i == n
 //@   on next(ctx, value) when !skipping : emits Next(ctx, value) ; n' = n + 1
@@ -54,7 +54,7 @@ package ro
 //@   on next(ctx, value) when skipping && !predicate_1(ctx, value, n) : emits Next(predicate_0(ctx, value, n), value) ; n' = n + 1
 
 //@ operator TakeWhileIWithContext
-//@   props C04 C09 C14
+//@   props C04 C09 C14 C08
 //@   ghost n int = 0
 //@   inv i == n && !skipping
 //@   on next(ctx, value) when predicate_1(ctx, value, n) : emits Next(predicate_0(ctx, value, n), value) ; n' = n + 1
@@ -63,12 +63,12 @@ package ro
 //@   on complete(ctx) : emits Complete(ctx)
 
 //@ operator Head
-//@   props C04 C14
+//@   props C04 C14 C08
 //@   on next(ctx, value) : emits Next(ctx, value), Complete(ctx)
 //@   on complete(ctx) : emits Error(ctx, ErrHeadEmpty)
 
 //@ operator Tail
-//@   props C04 C09
+//@   props C04 C09 C08
 //@   ghost n int = 0
 //@   ghost lastCtx val = nil
 //@   ghost lastVal val = nil
@@ -80,7 +80,7 @@ package ro
 //@   on complete(ctx) when n <= 0 : emits Error(ctx, ErrTailEmpty)
 
 //@ operator FirstIWithContext
-//@   props C04 C09 C14
+//@   props C04 C09 C14 C08
 //@   ghost n int = 0
 //@   inv i == n
 //@   on next(ctx, value) when predicate_1(ctx, value, n) : emits Next(predicate_0(ctx, value, n), value), Complete(predicate_0(ctx, value, n))
@@ -88,7 +88,7 @@ package ro
 //@   on complete(ctx) : emits Error(ctx, ErrFirstEmpty)
 
 //@ operator LastIWithContext
-//@   props C04 C09
+//@   props C04 C09 C08
 //@   ghost n int = 0
 //@   ghost found bool = false
 //@   ghost lastCtx val = nil
@@ -102,7 +102,7 @@ package ro
 //@   on complete(ctx) when !found : emits Error(ctx, ErrLastEmpty)
 
 //@ operator ElementAt
-//@   props C04 C14
+//@   props C04 C14 C08
 //@   requires nth >= 0
 //@   ghost n int = 0
 //@   inv count == n && n <= nth
@@ -111,7 +111,7 @@ package ro
 //@   on complete(ctx) : emits Error(ctx, ErrElementAtNotFound)
 
 //@ operator ElementAtOrDefault
-//@   props C04 C14
+//@   props C04 C14 C08
 //@   requires nth >= 0
 //@   ghost n int = 0
 //@   inv count == n && n <= nth
@@ -120,7 +120,7 @@ package ro
 //@   on complete(ctx) : emits Next(ctx, fallback), Complete(ctx)
 
 //@ operator SkipLast
-//@   props C04 C07 C09
+//@   props C04 C07 C09 C08
 //@   note the circular buffer is part of the machine state: a full buffer emits the (context, value) pair stored in the slot that the new value overwrites
 //@   requires count >= 1
 //@   inv len(buffer) == count && 0 <= index && index < count && 0 <= size && size <= count
@@ -165,30 +165,30 @@ package ro
 // ---------------------------------------------------------------------------
 
 //@ operator MapTo
-//@   props C04
+//@   props C04 C08
 //@   on next(ctx, value) : emits Next(ctx, output)
 
 //@ operator MapErrIWithContext
-//@   props C04 C07 C09
+//@   props C04 C07 C09 C08
 //@   ghost n int = 0
 //@   inv count == n
 //@   on next(ctx, t) when project_2(ctx, t, n) == nil : emits Next(project_1(ctx, t, n), project_0(ctx, t, n)) ; n' = n + 1
 //@   on next(ctx, t) when project_2(ctx, t, n) != nil : emits Error(project_1(ctx, t, n), project_2(ctx, t, n))
 
 //@ operator Cast
-//@   props C04 C07
+//@   props C04 C07 C08
 //@   on next(ctx, value) when is_U(value) : emits Next(ctx, value)
 //@   on next(ctx, value) when !is_U(value) : emits Error(ctx, _)
 
 //@ operator ScanIWithContext
-//@   props C04 C09 C12
+//@   props C04 C09 C12 C08
 //@   ghost n int = 0
 //@   ghost acc val = seed
 //@   inv i == n && accumulator == acc
 //@   on next(ctx, value) : emits Next(reduce_0(ctx, acc, value, n), reduce_1(ctx, acc, value, n)) ; n' = n + 1 ; acc' = reduce_1(ctx, acc, value, n)
 
 //@ operator Flatten
-//@   props C04
+//@   props C04 C08
 //@   on next(ctx, value) : emits loop.L0
 
 //@ loop Flatten$1$1$1#0
@@ -197,7 +197,7 @@ package ro
 //@   iteration emits destination.NextWithContext(ctx, ranged[it])
 
 //@ operator BufferWithCount
-//@   props C04 C07
+//@   props C04 C07 C08
 //@   requires size >= 1
 //@   inv len(buffer) < size
 //@   on next(ctx, value) when len(buffer) + 1 >= size : emits Next(ctx, appended(buffer, value))
@@ -210,14 +210,14 @@ package ro
 // ---------------------------------------------------------------------------
 
 //@ operator Count
-//@   props C04
+//@   props C04 C08
 //@   ghost n int = 0
 //@   inv count == n
 //@   on next(ctx, value) : emits ; n' = n + 1
 //@   on complete(ctx) : emits Next(ctx, n), Complete(ctx)
 
 //@ operator Sum
-//@   props C04
+//@   props C04 C08
 //@   ghost total val = nil
 //@   inv sum == total
 //@   note the initial value of `total` is the zero value of T, which the uninterpreted sort does not name: the initial-invariant check is skipped by leaving total unconstrained at subscription
@@ -225,7 +225,7 @@ package ro
 //@   on complete(ctx) : emits Next(ctx, total), Complete(ctx)
 
 //@ operator Min
-//@   props C04 C09
+//@   props C04 C09 C08
 //@   ghost n int = 0
 //@   ghost mCtx val = nil
 //@   ghost mVal val = nil
@@ -238,7 +238,7 @@ package ro
 //@   on complete(ctx) when n <= 0 : emits Complete(ctx)
 
 //@ operator Max
-//@   props C04 C09
+//@   props C04 C09 C08
 //@   ghost n int = 0
 //@   ghost mCtx val = nil
 //@   ghost mVal val = nil
@@ -251,13 +251,13 @@ package ro
 //@   on complete(ctx) when n <= 0 : emits Complete(ctx)
 
 //@ operator Clamp
-//@   props C04
+//@   props C04 C08
 //@   on next(ctx, value) when lt_T(value, lower) : emits Next(ctx, lower)
 //@   on next(ctx, value) when !lt_T(value, lower) && gt_T(value, upper) : emits Next(ctx, upper)
 //@   on next(ctx, value) when !lt_T(value, lower) && !gt_T(value, upper) : emits Next(ctx, value)
 
 //@ operator ReduceIWithContext
-//@   props C04 C09
+//@   props C04 C09 C08
 //@   ghost n int = 0
 //@   ghost acc val = seed
 //@   ghost accCtx val = nil
@@ -272,7 +272,7 @@ package ro
 // ---------------------------------------------------------------------------
 
 //@ operator AllIWithContext
-//@   props C04
+//@   props C04 C08
 //@   ghost n int = 0
 //@   ghost all bool = true
 //@   inv ok == all
@@ -282,7 +282,7 @@ package ro
 //@   on complete(ctx) : emits Next(ctx, all), Complete(ctx)
 
 //@ operator ContainsIWithContext
-//@   props C04 C14
+//@   props C04 C14 C08
 //@   ghost n int = 0
 //@   inv i == n
 //@   on next(ctx, value) when predicate_0(ctx, value, n) : emits Next(ctx, true), Complete(ctx)
@@ -290,14 +290,14 @@ package ro
 //@   on complete(ctx) : emits Next(ctx, false), Complete(ctx)
 
 //@ operator FindIWithContext
-//@   props C04 C14
+//@   props C04 C14 C08
 //@   ghost n int = 0
 //@   inv i == n
 //@   on next(ctx, value) when predicate_0(ctx, value, n) : emits Next(ctx, value), Complete(ctx)
 //@   on next(ctx, value) when !predicate_0(ctx, value, n) : emits ; n' = n + 1
 
 //@ operator DefaultIfEmptyWithContext
-//@   props C04 C09
+//@   props C04 C09 C08
 //@   ghost n int = 0
 //@   inv n >= 0 && empty == (n == 0)
 //@   given complete : defaultCtx != nil
@@ -310,19 +310,19 @@ package ro
 // ---------------------------------------------------------------------------
 
 //@ operator TapWithContext
-//@   props C04 C09
+//@   props C04 C09 C08
 //@   on next(ctx, value) : emits Next(ctx, value)
 //@   on error(ctx, err) : emits Error(ctx, err)
 //@   on complete(ctx) : emits Complete(ctx)
 
 //@ operator Materialize
-//@   props C04 C17
+//@   props C04 C17 C08
 //@   on next(ctx, value) : emits Next(ctx, fields(0, value, _))
 //@   on error(ctx, err) : emits Next(ctx, fields(1, _, err)), Complete(ctx)
 //@   on complete(ctx) : emits Next(ctx, fields(2, _, _)), Complete(ctx)
 
 //@ operator Dematerialize
-//@   props C04 C17
+//@   props C04 C17 C08
 //@   inline processNotificationWithObserverAndContext processNotificationWithContext
 //@   on next(ctx, notif) when notif.Kind == 0 : emits Next(ctx, notif.Value)
 //@   on next(ctx, notif) when notif.Kind == 1 : emits Error(ctx, notif.Err)
@@ -330,7 +330,7 @@ package ro
 //@   given next : notif.Kind >= 0 && notif.Kind <= 2
 
 //@ operator ToSlice
-//@   props C04 C17
+//@   props C04 C17 C08
 //@   note the accumulated slice is the machine state: empty at subscription, each value appended at the end, nothing else changed
 //@   ghost n int = 0
 //@   inv len(slice) == n && n >= 0
@@ -338,12 +338,12 @@ package ro
 //@   on complete(ctx) : emits Next(ctx, slice), Complete(ctx)
 
 //@ operator OnErrorReturn
-//@   props C04 C07
+//@   props C04 C07 C08
 //@   on next(ctx, value) : emits Next(ctx, value)
 //@   on error(ctx, err) : emits Next(ctx, finally), Complete(ctx)
 
 //@ operator ThrowIfEmpty
-//@   props C04 C07
+//@   props C04 C07 C08
 //@   ghost n int = 0
 //@   inv count == n && n >= 0
 //@   on next(ctx, value) : emits Next(ctx, value) ; n' = n + 1
@@ -351,13 +351,13 @@ package ro
 //@   on complete(ctx) when n != 0 : emits Complete(ctx)
 
 //@ operator ContextWithValue
-//@   props C04 C09
+//@   props C04 C09 C08
 //@   on next(ctx, value) : emits Next(ctx_WithValue(ctx, k, v), value)
 //@   on error(ctx, err) : emits Error(ctx_WithValue(ctx, k, v), err)
 //@   on complete(ctx) : emits Complete(ctx_WithValue(ctx, k, v))
 
 //@ operator ContextMapI
-//@   props C04 C09
+//@   props C04 C09 C08
 //@   ghost n int = 0
 //@   inv i == n
 //@   on next(ctx, value) : emits Next(project_0(ctx, n), value) ; n' = n + 1
@@ -367,7 +367,7 @@ package ro
 // ---------------------------------------------------------------------------
 
 //@ operator Of
-//@   props C04 C09
+//@   props C04 C09 C08
 //@   on subscribe(ctx, destination) : emits loop.L0, Complete(ctx)
 
 //@ loop Of$1#0
@@ -377,19 +377,19 @@ package ro
 //@   iteration emits destination.NextWithContext(ctx, ranged[it])
 
 //@ operator Empty
-//@   props C04 C09
+//@   props C04 C09 C08
 //@   on subscribe(ctx, destination) : emits Complete(ctx)
 
 //@ operator Throw
-//@   props C04 C07 C09
+//@   props C04 C07 C09 C08
 //@   on subscribe(ctx, destination) : emits Error(ctx, err)
 
 //@ operator Start
-//@   props C04 C09
+//@   props C04 C09 C08
 //@   on subscribe(ctx, destination) : emits Next(ctx, cb_0()), Complete(ctx)
 
 //@ operator Repeat
-//@   props C04 C09
+//@   props C04 C09 C08
 //@   otherwise count == 0 : returns Empty()
 //@   requires count >= 1
 //@   on subscribe(ctx, destination) : emits loop.L0, Complete(ctx)
@@ -400,7 +400,7 @@ package ro
 //@   iteration emits destination.NextWithContext(ctx, item)
 
 //@ operator Range
-//@   props C04 C09
+//@   props C04 C09 C08
 //@   otherwise start == end : returns Empty()
 //@   on subscribe(ctx, destination) : emits loop.L0, Complete(ctx)
 
@@ -520,7 +520,7 @@ package ro
 // ---------------------------------------------------------------------------
 
 //@ operator MergeAll
-//@   props C05 C09
+//@   props C05 C09 C04 C08
 //@   note live = number of inner sources subscribed and not yet completed; outerLive = 1 until the outer observable completes
 //@   ghost outerLive int = 1
 //@   ghost live int = 0
@@ -539,39 +539,39 @@ package ro
 //@   given complete@source : live >= 1
 
 //@ operator TakeUntil
-//@   props C05 C14
+//@   props C05 C14 C04 C08
 //@   on next@source(ctx, value) when ready == 1 : emits
 //@   on next@source(ctx, value) when ready != 1 : emits Next(ctx, value)
 //@   on next@signal(ctx, value) : emits Complete(ctx) ; post ready' == 1
 
 //@ operator SkipUntil
-//@   props C05
+//@   props C05 C04 C08
 //@   on next@source(ctx, value) when ready == 1 : emits Next(ctx, value)
 //@   on next@source(ctx, value) when ready != 1 : emits
 //@   on next@signal(ctx, value) : emits ; post ready' == 1
 
 //@ operator ThrottleWhen
-//@   props C05 C16
+//@   props C05 C16 C04 C08
 //@   on next@tick(ctx, value) : emits ; post send' == 1
 //@   on next@source(ctx, value) when send == 1 : emits Next(ctx, value) ; post send' == 0
 //@   on next@source(ctx, value) when send != 1 : emits ; post send' == send
 
 //@ operator BufferWhen
-//@   props C05 C16 C04
+//@   props C05 C16 C04 C08
 //@   on next@source(ctx, value) : emits ; post len(buffer') == len(buffer) + 1 && buffer'[len(buffer)] == value
 //@   on complete@source(ctx) : emits Next(ctx, buffer), Complete(ctx)
 //@   on next@boundary(ctx, value) : emits Next(ctx, buffer)
 //@   on complete@boundary(ctx) : emits Next(ctx, buffer), Complete(ctx)
 
 //@ operator SampleWhen
-//@   props C05 C16 C09
+//@   props C05 C16 C09 C04 C08
 //@   inv hasValue ==> last.A != nil
 //@   on next@source(ctx, value) : emits ; post hasValue' == true && last'.A == ctx && last'.B == value
 //@   on next@tick(ctx, value) when hasValue : emits Next(last.A, last.B) ; post hasValue' == false
 //@   on next@tick(ctx, value) when !hasValue : emits
 
 //@ operator WindowWhen
-//@   props C05 C20
+//@   props C05 C20 C04 C08
 //@   track window.* call.NewUnicastSubject
 //@   inv window != nil
 //@   on next@source(ctx, value) : emits window.NextWithContext(ctx, value)
@@ -582,7 +582,7 @@ package ro
 //@   on complete@boundary(ctx) : emits window.CompleteWithContext(ctx), Complete(ctx)
 
 //@ operator GroupByIWithContext
-//@   props C05 C20 C09
+//@   props C05 C20 C09 C04 C08
 //@   alias subject=NewUnicastSubject()
 //@   track groups.Load groups.Store elem.* call.NewUnicastSubject NewUnicastSubject().*
 //@   ghost n int = 0
@@ -594,7 +594,7 @@ package ro
 //@   on complete(ctx) : emits elem.CompleteWithContext(ctx), Complete(ctx)
 
 //@ operator RaceWith
-//@   props C05 C07 C14
+//@   props C05 C07 C14 C04 C08
 //@   otherwise len(sources) == 0 : returns RaceWith$1
 //@   note won is -1 until a source notifies; j is the index of the source these callbacks belong to
 //@   on next(ctx, value) when won == -1 || won == j : emits Next(ctx, value) ; post won' == j
@@ -616,7 +616,7 @@ package ro
 // ---------------------------------------------------------------------------
 
 //@ operator RetryWithConfig
-//@   props C15 C09 C14
+//@   props C15 C09 C14 C04 C08
 //@   alias attempt=source.SubscribeWithContext()
 //@   on next(ctx, value) when opts.ResetOnSuccess : emits Next(ctx, value) ; post retries' == 0
 //@   on next(ctx, value) when !opts.ResetOnSuccess : emits Next(ctx, value) ; post retries' == retries
@@ -630,7 +630,7 @@ package ro
 //@   iteration ensures count(chpoll) == 1 && before(chpoll, source.SubscribeWithContext) && arg(chpoll, 0) == res(subscriberCtx.Done)
 
 //@ operator RepeatWith
-//@   props C15 C09
+//@   props C15 C09 C04 C08
 //@   otherwise count == 0 : returns Empty()
 //@   alias attempt=source.SubscribeWithContext()
 //@   requires count >= 1
@@ -644,7 +644,7 @@ package ro
 //@   iteration ensures count(destination.IsClosed) == 1 && before(attempt.Wait, destination.IsClosed) && !res(destination.IsClosed)
 
 //@ operator OnErrorResumeNextWith
-//@   props C15 C09
+//@   props C15 C09 C04 C08
 //@   otherwise len(finally) == 0 : returns source
 //@   alias attempt=sources[].SubscribeWithContext() each=sources[]
 //@   on next(ctx, value) : emits Next(ctx, value)
@@ -656,7 +656,7 @@ package ro
 //@   iteration ensures count(each.SubscribeWithContext) == 1 && count(attempt.Wait) == 1 && before(each.SubscribeWithContext, attempt.Wait)
 
 //@ operator DoWhileIWithContext
-//@   props C15 C09
+//@   props C15 C09 C04 C08
 //@   alias attempt=source.SubscribeWithContext()
 //@   on next(ctx, value) : emits Next(ctx, value)
 //@   on error(ctx, err) : emits Error(ctx, err) ; post lastErr' == err
@@ -667,7 +667,7 @@ package ro
 //@   iteration ensures arg(source.SubscribeWithContext, 0) == atiter(currentCtx)
 
 //@ operator WhileIWithContext
-//@   props C15 C09
+//@   props C15 C09 C04 C08
 //@   alias attempt=source.SubscribeWithContext()
 //@   on next(ctx, value) : emits Next(ctx, value)
 //@   on error(ctx, err) : emits Error(ctx, err) ; post lastErr' == err
@@ -678,7 +678,7 @@ package ro
 //@   iteration ensures count(callfn.condition) == 1 && count(source.SubscribeWithContext) == 1 && count(attempt.Wait) == 1 && before(callfn.condition, source.SubscribeWithContext) && before(source.SubscribeWithContext, attempt.Wait)
 
 //@ operator ConcatAll
-//@   props C15 C05
+//@   props C15 C05 C04 C08
 //@   alias inner=source.SubscribeWithContext()
 //@   track source.SubscribeWithContext source.SubscribeWithContext().* subscriptions.*
 //@   note a source handed over after the output ended (an earlier source failed, or the downstream left) is not subscribed at all
@@ -695,7 +695,7 @@ package ro
 // ---------------------------------------------------------------------------
 
 //@ operator Delay
-//@   props C16 C08 C09
+//@   props C16 C08 C09 C04
 //@   note every notification is queued with its context, and one timer of the configured duration is armed for it; nothing is delivered by the upstream callback itself
 //@   track call.AfterFunc
 //@   on next(ctx, value) : emits call.AfterFunc(duration, _) ; post len(queue') == len(queue) + 1 && queue'[len(queue)].A == ctx && queue'[len(queue)].B.Kind == 0 && queue'[len(queue)].B.Value == value
@@ -717,7 +717,7 @@ package ro
 //@   ensures [delivery-order-is-pop-order-the-delivery-lock-is-taken-before-the-queue-lock-is-released|C16,C13] len(old(queue)) > 0 ==> before(lock.muNext, unlock.muQueue) && heldat(muNext, destination.ANY) && heldat(muQueue, lock.muNext)
 
 //@ operator Timeout
-//@   props C16 C09
+//@   props C16 C09 C04 C08
 //@   track call.Timer.Stop call.Timer.Reset
 //@   on next(ctx, value) : emits call.Timer.Stop(_), Next(ctx, value), call.Timer.Reset(_, duration)
 //@   on error(ctx, err) : emits call.Timer.Stop(_), Error(ctx, err)
@@ -739,7 +739,7 @@ package ro
 // ---------------------------------------------------------------------------
 
 //@ operator Pairwise
-//@   props C04
+//@   props C04 C08
 //@   ghost n int = 0
 //@   ghost prev val = nil
 //@   inv count == n && n >= 0
@@ -748,7 +748,7 @@ package ro
 //@   on next(ctx, value) when n <= 0 : emits ; n' = n + 1 ; prev' = value
 
 //@ operator EndWith
-//@   props C04 C09
+//@   props C04 C09 C08
 //@   on next(ctx, value) : emits Next(ctx, value)
 //@   on complete(ctx) : emits loop.L0, Complete(ctx)
 
@@ -759,14 +759,14 @@ package ro
 //@   iteration emits destination.NextWithContext(ctx, ranged[it])
 
 //@ operator ContextReset
-//@   props C04 C09
+//@   props C04 C09 C08
 //@   requires newCtx != nil
 //@   on next(ctx, value) : emits Next(newCtx, value)
 //@   on error(ctx, err) : emits Error(newCtx, err)
 //@   on complete(ctx) : emits Complete(newCtx)
 
 //@ operator ToMapIWithContext
-//@   props C04 C17
+//@   props C04 C17 C08
 //@   note the accumulated map is the machine state: each value overwrites the entry of its key (last write wins)
 //@   ghost n int = 0
 //@   inv i == n
@@ -774,17 +774,17 @@ package ro
 //@   on complete(ctx) : emits Next(ctx, output), Complete(ctx)
 
 //@ operator Distinct
-//@   props C04
+//@   props C04 C08
 //@   on next(ctx, value) when !has(seen, value) : emits Next(ctx, value) ; post keysadded(seen, value)
 //@   on next(ctx, value) when has(seen, value) : emits ; post mapsame(seen)
 
 //@ operator DistinctByWithContext
-//@   props C04 C09
+//@   props C04 C09 C08
 //@   on next(ctx, value) when !has(seen, keySelector_1(ctx, value)) : emits Next(keySelector_0(ctx, value), value) ; post keysadded(seen, keySelector_1(ctx, value))
 //@   on next(ctx, value) when has(seen, keySelector_1(ctx, value)) : emits ; post mapsame(seen)
 
 //@ operator TakeLast
-//@   props C04 C09
+//@   props C04 C09 C08
 //@   otherwise count == 0 : returns Empty()
 //@   note the sliding buffer is the machine state: it holds the last min(index, count) (context, value) pairs in arrival order
 //@   requires count >= 1
@@ -803,7 +803,7 @@ package ro
 //@   iteration emits destination.NextWithContext(buffer[i].A, buffer[i].B)
 
 //@ operator StartWith
-//@   props C04 C09
+//@   props C04 C09 C08
 //@   note the prefixes are delivered first, in order; then the source is subscribed with the downstream observer itself
 //@   track source.SubscribeWithContext
 //@   on subscribe(ctx, destination) : emits loop.L0, source.SubscribeWithContext(ctx, destination)
@@ -815,17 +815,17 @@ package ro
 //@   iteration emits destination.NextWithContext(subscriberCtx, ranged[it])
 
 //@ operator TapOnSubscribeWithContext
-//@   props C04 C09
+//@   props C04 C09 C08
 //@   track source.SubscribeWithContext callfn.onSubscribe
 //@   on subscribe(ctx, destination) : emits callfn.onSubscribe(ctx), source.SubscribeWithContext(ctx, destination)
 
 //@ operator TapOnFinalize
-//@   props C04 C03
+//@   props C04 C03 C08
 //@   track source.SubscribeWithContext
 //@   on subscribe(ctx, destination) : emits source.SubscribeWithContext(ctx, destination)
 
 //@ operator FromSlice
-//@   props C04 C09
+//@   props C04 C09 C08
 //@   on subscribe(ctx, destination) : emits loop.L0, Complete(ctx)
 
 //@ loop FromSlice$1#0
@@ -840,15 +840,15 @@ package ro
 //@   iteration emits destination.NextWithContext(ctx, ranged[it])
 
 //@ operator Timestamp
-//@   props C04 C09
+//@   props C04 C09 C08
 //@   on next(ctx, value) : emits Next(ctx, fields(value, _))
 
 //@ operator TimeInterval
-//@   props C04 C09
+//@   props C04 C09 C08
 //@   on next(ctx, value) : emits Next(ctx, fields(value, _))
 
 //@ operator Average
-//@   props C04 C01
+//@   props C04 C01 C08
 //@   ghost n int = 0
 //@   inv count == n && n >= 0
 //@   on next(ctx, value) : emits ; n' = n + 1
@@ -867,7 +867,7 @@ package ro
 // time-driven operators, second batch (C16)
 
 //@ operator ThrottleTime
-//@   props C04 C16
+//@   props C04 C16 C08
 //@   note a value passes only when strictly more than the configured duration (in the clock's own unit, nanoseconds) has elapsed since the last value that passed
 //@   track call.NowNanoMonotonic
 //@   requires intervalNano == interval
@@ -875,13 +875,13 @@ package ro
 //@   on next(ctx, value) when lastAt + interval >= res(call.NowNanoMonotonic) : emits call.NowNanoMonotonic() ; post lastAt' == lastAt
 
 //@ operator DelayEach
-//@   props C04 C16
+//@   props C04 C16 C08
 //@   note each value is handed on only after the producer has been held for the whole duration
 //@   track call.Sleep
 //@   on next(ctx, value) : emits call.Sleep(duration), Next(ctx, value)
 
 //@ operator Catch
-//@   props C04 C07 C09
+//@   props C04 C07 C09 C08
 //@   note on an error the fallback chosen by the user function is subscribed with the error notification's context and the downstream observer itself, and is registered for release
 //@   alias fallback=finally()
 //@   track callfn.finally fallback.SubscribeWithContext subscriptions.AddUnsubscribable
@@ -915,7 +915,7 @@ package ro
 //@   ensures [error-ends-the-output-and-releases-the-others|C05,C09] trace(destination.ErrorWithContext(ctx, err), subscriptions.Unsubscribe())
 
 //@ operator Serialize
-//@   props C02 C08
+//@   props C02 C08 C04
 //@   note Serialize is the identity on notifications; its whole meaning is its constructor: the locking one, whose Next blocks until the downstream is free (never dropping)
 //@   constructor NewSafeObservableWithContext
 //@   track source.SubscribeWithContext
@@ -996,7 +996,7 @@ package ro
 //@   ensures [completes-exactly-when-a-finished-queue-is-drained|C05] len(old(valueA)) > 0 && len(old(valueB)) > 0 && len(old(valueC)) > 0 && len(old(valueD)) > 0 && len(old(valueE)) > 0 && len(old(valueF)) > 0 ==> iff(called(destination.CompleteWithContext), (completedA && len(valueA) == 0) || (completedB && len(valueB) == 0) || (completedC && len(valueC) == 0) || (completedD && len(valueD) == 0) || (completedE && len(valueE) == 0) || (completedF && len(valueF) == 0))
 
 //@ operator ZipAll
-//@   props C05 C04
+//@   props C05 C04 C08
 //@   note the list of sources is collected first; the zipped sources then decide every notification of the output, including its completion: reading the list to its end completes nothing (unless there is nothing to zip)
 //@   track call.zipAllInnerSubscriptions innerSub.Add
 //@   on next(ctx, flattenSources) when len(flattenSources) == 0 : emits Complete(ctx)
@@ -1005,7 +1005,7 @@ package ro
 //@   on complete(ctx) : emits
 
 //@ operator CombineLatestWith1
-//@   props C04 C05
+//@   props C04 C05 C08
 //@   note sequential-interleaving semantics (whole callbacks); the state is the real state: the status word and the two latest-value pointers
 //@   inline (*Pointer).Load (*Pointer).Store
 //@   on next@obsA(ctx, v) when status < 2 && valueB.p.v != nil : emits Next(ctx, fields(v, deref(valueB.p.v)))
@@ -1020,7 +1020,7 @@ package ro
 //@   on complete@obsB(ctx) when status + 1 != 2 : emits ; post status' == status + 1
 
 //@ operator CombineLatestWith2
-//@   props C04 C05
+//@   props C04 C05 C08
 //@   note as CombineLatestWith1 over 3 sources: status counts completed sources, 3 = done, 4 = failed
 //@   inline (*Pointer).Load (*Pointer).Store
 //@   on next@obsA(ctx, v) when status < 3 && valueB.p.v != nil && valueC.p.v != nil : emits Next(ctx, fields(v, deref(valueB.p.v), deref(valueC.p.v)))
@@ -1040,7 +1040,7 @@ package ro
 //@   on complete@obsC(ctx) when status + 1 != 3 : emits ; post status' == status + 1
 
 //@ operator CombineLatestWith3
-//@   props C04 C05
+//@   props C04 C05 C08
 //@   note as CombineLatestWith1 over 4 sources: status counts completed sources, 4 = done, 5 = failed
 //@   inline (*Pointer).Load (*Pointer).Store
 //@   on next@obsA(ctx, v) when status < 4 && valueB.p.v != nil && valueC.p.v != nil && valueD.p.v != nil : emits Next(ctx, fields(v, deref(valueB.p.v), deref(valueC.p.v), deref(valueD.p.v)))
@@ -1065,7 +1065,7 @@ package ro
 //@   on complete@obsD(ctx) when status + 1 != 4 : emits ; post status' == status + 1
 
 //@ operator CombineLatestWith4
-//@   props C04 C05
+//@   props C04 C05 C08
 //@   note as CombineLatestWith1 over 5 sources: status counts completed sources, 5 = done, 6 = failed
 //@   inline (*Pointer).Load (*Pointer).Store
 //@   on next@obsA(ctx, v) when status < 5 && valueB.p.v != nil && valueC.p.v != nil && valueD.p.v != nil && valueE.p.v != nil : emits Next(ctx, fields(v, deref(valueB.p.v), deref(valueC.p.v), deref(valueD.p.v), deref(valueE.p.v)))
@@ -1097,14 +1097,14 @@ package ro
 // third batch
 
 //@ operator Defer
-//@   props C04 C12 C09
+//@   props C04 C12 C09 C08
 //@   note the factory is asked once per subscription, and what it returns is subscribed with the subscriber's context and the downstream observer itself
 //@   alias made=factory()
 //@   track callfn.factory made.SubscribeWithContext
 //@   on subscribe(ctx, destination) : emits callfn.factory(), made.SubscribeWithContext(ctx, destination)
 
 //@ operator MergeMapIWithContext
-//@   props C04 C05 C09
+//@   props C04 C05 C09 C08
 //@   note the projection stage: every value becomes the (context, observable) pair the user function returns for it, with the running index; the stage is flattened by MergeAll (see MergeMapIWithContext$1)
 //@   ghost n int = 0
 //@   inv i == n
@@ -1116,18 +1116,18 @@ package ro
 //@   ensures [inner-observables-are-merged|C04,C05] trace(call.MergeAll(), call.NewObservableWithContext(_), callfn.ANY(res(call.NewObservableWithContext)))
 
 //@ operator SequenceEqual
-//@   props C04 C05
+//@   props C04 C05 C08
 //@   note the two sequences are zipped; the first differing pair answers false at once, the end of the zip answers true
 //@   on next(ctx, values) when values.A != values.B : emits Next(ctx, false), Complete(ctx)
 //@   on next(ctx, values) when values.A == values.B : emits
 //@   on complete(ctx) : emits Next(ctx, true), Complete(ctx)
 
 //@ operator ContextWithTimeout
-//@   props C04 C09
+//@   props C04 C09 C08
 //@   on next(ctx, value) : emits Next(ctx_WithTimeout(ctx, timeout), value)
 
 //@ operator ContextWithDeadline
-//@   props C04 C09
+//@   props C04 C09 C08
 //@   on next(ctx, value) : emits Next(ctx_WithDeadline(ctx, deadline), value)
 
 //@ func Timer$1
@@ -1153,27 +1153,27 @@ package ro
 // math lifts: each value is replaced by what the standard function returns for it (floating point itself is not reasoned about)
 
 //@ operator Abs
-//@   props C04
+//@   props C04 C08
 //@   track call.Abs
 //@   on next(ctx, value) : emits call.Abs(value), Next(ctx, res(call.Abs))
 
 //@ operator Round
-//@   props C04
+//@   props C04 C08
 //@   track call.Round
 //@   on next(ctx, value) : emits call.Round(value), Next(ctx, res(call.Round))
 
 //@ operator Ceil
-//@   props C04
+//@   props C04 C08
 //@   track call.Ceil
 //@   on next(ctx, value) : emits call.Ceil(value), Next(ctx, res(call.Ceil))
 
 //@ operator Floor
-//@   props C04
+//@   props C04 C08
 //@   track call.Floor
 //@   on next(ctx, value) : emits call.Floor(value), Next(ctx, res(call.Floor))
 
 //@ operator Trunc
-//@   props C04
+//@   props C04 C08
 //@   track call.Trunc
 //@   on next(ctx, value) : emits call.Trunc(value), Next(ctx, res(call.Trunc))
 
@@ -1214,7 +1214,7 @@ package ro
 //@   ensures [a-panicking-factory-reaches-the-subscriber-as-an-error|C07] panicked(factory) ==> !panics && trace(callfn.factory(), destination.ErrorWithContext(ctx, _))
 
 //@ operator BufferWithTimeOrCount
-//@   props C04 C16 C05
+//@   props C04 C16 C05 C08
 //@   note sequential-interleaving semantics; the buffer is the machine state: a value is appended, a full buffer or a tick flushes it whole (also when empty), completion flushes then completes
 //@   requires size >= 1
 //@   alias tick=Interval()
